@@ -18,6 +18,8 @@ struct DynPorts : rtosc::Ports {
 };
 
 // ---------------------------------------------------------------- runtime structs
+ // a sub-object of every Leaf: its table entry "inner/" declares a dependency relative to the Leaf it sits in
+struct Inner { int w; static DynPorts ports; };
 struct Leaf {
     int preset;          // selects the defaults of a, b, arr
     int a;
@@ -30,6 +32,7 @@ struct Leaf {
     float farr[8];
     bool on;             // enables this object when referenced as "leaf/on" by the parent
     int mode, val;       // val is clamped to 0..10*(mode+1): depends on mode
+    Inner inner;         // "inner/" depends on mode: a new mode re-initialises inner.w
     int bank, engine;    // mode depends on bank, bank depends on engine: a new engine re-initialises bank, a new bank re-initialises mode (and so on down)
     static DynPorts ports;
 };
@@ -48,7 +51,7 @@ struct Root {
     Leaf ptr_target;     // what mid.ptr points to (or NULL)
     static DynPorts ports;
 };
-DynPorts Leaf::ports, Mid::ports, Root::ports;
+DynPorts Inner::ports, Leaf::ports, Mid::ports, Root::ports;
 
 // ---------------------------------------------------------------- per-case configuration
 struct LeafCfg {
@@ -57,7 +60,7 @@ struct LeafCfg {
     float b_def[2] = {0, 0}; bool b_depends = false;
     int arr_def[2][8] = {{0}, {0}}; bool arr_depends = false; bool arr_compressed_default = false;
     float farr_def[8] = {0};
-    int c_def = 64, o_def = 0, val_def = 0, mode_def = 0, bank_def = 0, engine_def = 0;
+    int c_def = 64, o_def = 0, val_def = 0, mode_def = 0, bank_def = 0, engine_def = 0, w_def = 0;
     bool t_def = false, on_def = true;
     std::string s_def = "";
     int a_min = -1000, a_max = 1000;
@@ -97,7 +100,7 @@ static inline void reset_leaf(Leaf &l, const LeafCfg &c, int preset = 0)
     l.c = (unsigned char)c.c_def; l.t = c.t_def; l.o = c.o_def;
     strncpy(l.s, c.s_def.c_str(), 15);
     for(int i = 0; i < 8; ++i) { l.arr[i] = c.arr_def[c.arr_depends ? preset : 0][i]; l.farr[i] = c.farr_def[i]; }
-    l.on = c.on_def; l.mode = c.mode_def; l.val = c.val_def; l.bank = c.bank_def; l.engine = c.engine_def;
+    l.on = c.on_def; l.mode = c.mode_def; l.val = c.val_def; l.bank = c.bank_def; l.engine = c.engine_def; l.inner.w = c.w_def;
 }
 static inline void reset_root(Root &r, const Cfg &c)
 {
@@ -129,6 +132,7 @@ static inline std::string diff_leaf(const Leaf &x, const Leaf &y, const LeafCfg 
     }
     if(has("on") && x.on != y.on) d += vh::fmt("%son %d!=%d ", where.c_str(), x.on, y.on);
     if(has("mode") && x.mode != y.mode) d += vh::fmt("%smode %d!=%d ", where.c_str(), x.mode, y.mode);
+    if(has("inner") && x.inner.w != y.inner.w) d += vh::fmt("%sinner/w %d!=%d ", where.c_str(), x.inner.w, y.inner.w);
     if(has("bank") && x.bank != y.bank) d += vh::fmt("%sbank %d!=%d ", where.c_str(), x.bank, y.bank);
     if(has("engine") && x.engine != y.engine) d += vh::fmt("%sengine %d!=%d ", where.c_str(), x.engine, y.engine);
     if(has("val") && x.val != y.val) d += vh::fmt("%sval %d!=%d ", where.c_str(), x.val, y.val);
@@ -154,6 +158,9 @@ struct Meta {
     Meta &map(const std::string &k, const std::string &v) { m += ":" + k; m.push_back('\0'); m += "=" + v; m.push_back('\0'); return *this; }
 };
 
+#define rObject Inner
+static std::function<void(const char *, rtosc::RtData &)> CB_w = rParamICb(w);
+#undef rObject
 #define rObject Leaf
 static const rtosc::Port::MetaContainer *dummy_meta_ptr = nullptr;
 // the preset port: setting it re-initialises the ports that declare "default depends" on it
@@ -188,6 +195,7 @@ static void apply_mode(Leaf *obj, int v)
         if(c.a_depends) obj->a = c.a_def[0];
         if(c.b_depends) obj->b = c.b_def[0];
         if(c.arr_depends) for(int i = 0; i < 8; ++i) obj->arr[i] = c.arr_def[0][i];
+        obj->inner.w = c.w_def;      // declared on the "inner/" entry: depends on mode
     }
     obj->mode = v;
     if(obj->val > 10 * (obj->mode + 1)) obj->val = 10 * (obj->mode + 1);
@@ -233,6 +241,7 @@ static void leaf_engine_cb(const char *msg, rtosc::RtData &d)
     obj->engine = v;
     d.broadcast(d.loc, "i", obj->engine);
 }
+static std::function<void(const char *, rtosc::RtData &)> CB_inner = rRecurCb(inner);
 static std::function<void(const char *, rtosc::RtData &)> CB_a = rParamICb(a), CB_b = rParamFCb(b), CB_c = rParamCb(c), CB_t = rToggleCb(t), CB_o = rOptionCb(o),
     CB_s = rStringCb(s, 16), CB_arr = rArrayICb(arr), CB_farr = rArrayFCb(farr), CB_on = rToggleCb(on), CB_mode = rParamICb(mode);
 // the enabling toggle of a Leaf (rSelf(.., rEnabledBy(on))): switching it on re-initialises the object
@@ -304,6 +313,7 @@ static inline void build(Cfg &c, Rng &r)
             lp.push_back({"arr#8::i", keep(m.m), 0, CB_arr});
         } else if(n == "farr") { std::string t = "["; for(int i = 0; i < 8; ++i) t += (i ? " " : "") + fl(L.farr_def[i]); m.map("default", t + "]"); lp.push_back({"farr#8::f", keep(m.m), 0, CB_farr}); }
         else if(n == "on") { m.map("default", L.on_def ? "true" : "false"); lp.push_back({"on::T:F", keep(m.m), 0, leaf_on_cb}); }
+        else if(n == "inner") { Meta mi; mi.map("depends", "mode,").map("documentation", "inner"); lp.push_back({"inner/", keep(mi.m), &Inner::ports, CB_inner}); }
         else if(n == "bank") { m.map("min", "0").map("max", "3").map("default", std::to_string(L.bank_def)); if(L.has("engine")) m.map("depends", "engine,"); lp.push_back({"bank::i", keep(m.m), 0, leaf_bank_cb}); }
         else if(n == "engine") { m.map("min", "0").map("max", "3").map("default", std::to_string(L.engine_def)); lp.push_back({"engine::i", keep(m.m), 0, leaf_engine_cb}); }
         else if(n == "mode") { m.map("min", "0").map("max", "9").map("default", std::to_string(L.mode_def)); if(L.has("bank")) m.map("depends", "bank,"); lp.push_back({L.colon_last ? "mode:i:" : "mode::i", keep(m.m), 0, leaf_mode_cb}); }
@@ -314,6 +324,7 @@ static inline void build(Cfg &c, Rng &r)
         Meta m; m.prop("internal").map("class", "Leaf").map("enabled by", "on").map("documentation", "port metadata");
         lp.insert(lp.begin() + (long)r.below(lp.size() + 1), rtosc::Port{"self:", keep(m.m), 0, [](const char *, rtosc::RtData &d) { d.reply(d.loc, "b", sizeof(d.obj), &d.obj); }});
     }
+    { Meta mw; mw.prop("parameter").map("min", "-100").map("max", "100").map("default", std::to_string(L.w_def)); std::vector<rtosc::Port> ip; ip.push_back({"w::i", keep(mw.m), 0, CB_w}); Inner::ports.set(ip); }
     Leaf::ports.set(lp);
     std::vector<rtosc::Port> mp;
     std::vector<std::string> morder = {"en", "leaf", "x"};
@@ -360,7 +371,8 @@ static inline void gen_cfg(Cfg &c, Rng &r)
     static const char *S[] = {"", "init", "a b", "x%y", "q\"uote", "back\\slash", "two\nlines"};
     L.s_def = S[r.below(7)];
     // subset and order of leaf ports ("preset" is needed when something depends on it; same for "mode"/"val")
-    std::vector<std::string> all = {"preset", "a", "b", "c", "t", "o", "s", "arr", "farr", "on", "mode", "val", "bank", "engine"};
+    std::vector<std::string> all = {"preset", "a", "b", "c", "t", "o", "s", "arr", "farr", "on", "mode", "val", "bank", "engine", "inner"};
+    L.w_def = (int)r.range(-3, 3);
     bool deep_chain = r.chance(0.5);      // a -> preset -> mode -> bank -> engine
     L.bank_def = (int)r.below(2); L.engine_def = (int)r.below(2);
     for(size_t i = all.size(); i > 1; --i) std::swap(all[i - 1], all[r.below(i)]);
@@ -369,6 +381,7 @@ static inline void gen_cfg(Cfg &c, Rng &r)
         // char-typed parameters (rParam, "::c") are a known finding: rarely included
         if(n == "c") { if(r.chance(0.04)) L.order.push_back(n); continue; }
         if(n == "bank" || n == "engine") { if(deep_chain) L.order.push_back(n); continue; }
+        if(n == "inner") { if(r.chance(0.5)) L.order.push_back(n); continue; }
         if(must || r.chance(0.75)) L.order.push_back(n);
     }
     c.mid_en_def = r.chance(0.7);
